@@ -15,6 +15,14 @@ open RM
 
 @[simp] theorem RM.get_apply (rc : RC) (out : Out) : RM.get rc out = .ok rc rc out := rfl
 @[simp] theorem RM.modify_apply (f : RC → RC) (rc : RC) (out : Out) : RM.modify f rc out = .ok () (f rc) out := rfl
+@[simp] theorem RM.modifyAux_apply (f : RC → RC) (rc : RC) (out : Out) :
+    RM.modifyAux f rc out = .ok ()
+      { (f rc) with blocks := rc.blocks, disableEscape := rc.disableEscape, indentString := rc.indentString, pbStack := rc.pbStack, pbBinding := rc.pbBinding }
+      out := rfl
+theorem RM.bracket_apply {α : Type} (enter : RC → RC) (x : RM α) (leave : RC → RC → RC) (rc : RC) (out : Out) :
+    RM.bracket enter x leave rc out = match x (enter rc) out with
+      | .ok a rc1 out1 => .ok a (leave rc rc1) out1
+      | r => r := rfl
 @[simp] theorem RM.throw_apply {α : Type} (e : RenderError) (rc : RC) (out : Out) :
     (RM.throw e : RM α) rc out = .err e out := rfl
 @[simp] theorem RM.throwR_apply {α : Type} (r : RReason) (rc : RC) (out : Out) :
